@@ -1214,6 +1214,8 @@ class Executor:
                 if isinstance(v, PyDict):
                     for k in v.keys:
                         kwargs[k] = v.vals[k]
+                elif CFG_MODE[0] and isinstance(v, Opaque):
+                    kwargs["**"] = v            # effect analysis: an unknown mapping is forwarded as a whole
                 else:
                     raise Unsupported("**kwargs of unknown dict")
             else:
